@@ -8,6 +8,7 @@ package sim
 // depends on the file's modification time relative to the simulated clock.
 
 import (
+	"bytes"
 	"encoding/json"
 	"fmt"
 	"os"
@@ -255,6 +256,29 @@ func execC01BF(t *testing.T, raw json.RawMessage, res *Result) {
 	}
 
 	unchangedRuns, keyChanges := 0, 0
+	// signature of the logical content last committed (columns, key, rows by key): committing the
+	// same content again must be detected as "no change" (the branch does not move)
+	sigOf := func(key []string) (string, bool) {
+		pcols, prows, err := ParseCSV(CSVText(cols, rows, delim), delim)
+		if err != nil {
+			return "", false
+		}
+		pk, err := pkIndices(pcols, key)
+		if err != nil {
+			return "", false
+		}
+		exp := IngestModel(pcols, prows, pk)
+		if !exp.Unique || len(pcols) == 1 {
+			return "", false
+		}
+		var b strings.Builder
+		fmt.Fprintf(&b, "%q|%q|", pcols, key)
+		for _, k := range exp.Keys {
+			fmt.Fprintf(&b, "%q;", exp.ByKey[keyStr(k)][0])
+		}
+		return b.String(), true
+	}
+	lastSig, lastSigOK := sigOf(confKey)
 	for i, st := range p.Steps {
 		step := fmt.Sprintf("step %d", i)
 		if st.GapS < 0 || st.GapS > 1e6 || st.RunGapS < 0 || st.RunGapS > 1e6 {
@@ -326,6 +350,7 @@ func execC01BF(t *testing.T, raw json.RawMessage, res *Result) {
 		if st.NoCache {
 			args = append(args, "--no-cache")
 		}
+		headBefore := func() []byte { r, _ := n.Refs(); return r["heads/main"] }()
 		cr := n.Run(t, args...)
 		if bubbleProblems(res, cr.Out, "wrgl "+strings.Join(args, " ")) {
 			return
@@ -334,6 +359,15 @@ func execC01BF(t *testing.T, raw json.RawMessage, res *Result) {
 			res.Violate("commit-error", "%s: wrgl %v failed: %v\n%s", step, args, cr.Err, cr.Stdout)
 			return
 		}
+		sig, sigOK := sigOf(key)
+		if sigOK && lastSigOK && sig == lastSig {
+			if r, _ := n.Refs(); !bytes.Equal(r["heads/main"], headBefore) {
+				res.Violate("unchanged-data-recommitted", "%s (wrgl %s): columns, key and rows are what the branch already holds, yet a new commit was made: %s", step, strings.Join(args, " "), cr.Stdout)
+				return
+			}
+			res.probe("no_change_detected", 1)
+		}
+		lastSig, lastSigOK = sig, sigOK
 		n.Clock += time.Second
 		if _, ok := check(fmt.Sprintf("%s (wrgl %s)", step, strings.Join(args, " ")), key); !ok {
 			return
